@@ -14,9 +14,10 @@ def blockOf (j : Json) : R Block := do
   let ns ← strF j "n"
   let c ← strF j "c"
   match ns.toNat? with
-  | some n => pure { number := n, hash := ← strF j "h", txs := ← listF transmitOf j "tx", content := c }
+  | some n => pure { number := n, hash := ← strF j "h", txs := ← listF transmitOf j "tx", content := c,
+                     created := ← listF asNat j "created" }
   | none => pure { number := badNumber, hash := ← strF j "h", txs := ← listF transmitOf j "tx",
-                   content := c ++ "|number=" ++ ns }
+                   content := c ++ "|number=" ++ ns, created := ← listF asNat j "created" }
 
 def evOf (j : Json) : R Ev := do
   pure { wid := ← strF j "wid", block := ← natF j "blk", conf := ← intF j "conf",
@@ -43,6 +44,7 @@ def subOf (genesis : Nat) (dict : Array Block) (hashes : Array String) (j : Json
   let slow ← listF asNat j "slow"
   pure { recv := recv.map fun i => dict.getD i { number := 0, hash := "?", txs := [] },
          slow := slow.map fun i => dict.getD i { number := 0, hash := "?", txs := [] },
+         active := ← listF asNat j "active",
          hists := ← hists.mapM (histOf genesis hashes),
          events := ← listF (listOf evOf) j "events",
          seen := ← listF asNat j "seen" }
@@ -58,7 +60,9 @@ def inputOf (j : Json) : R Input := do
          nsubs := ← natF j "subs", delays := ← listF (listOf asNat) j "delays",
          reports := ← listF reportOf j "reports", txs := ← listF submissionOf j "txs",
          queries := ← listF asNat j "queries",
-         attach := ← listF asNat j "attach", detach := ← listF asNat j "detach" }
+         attach := ← listF asNat j "attach", detach := ← listF asNat j "detach",
+         upkeeps := ← listF (fun u => do pure (← natF u "block", ← listF asNat u "ids")) j "upkeeps",
+         grace := ← natF j "grace" }
 
 def outOf (genesis : Nat) (j : Json) : R Out := do
   let dict := (← listF blockOf j "dict").toArray
@@ -147,6 +151,7 @@ def handle (input impl : Json) : R Reply := do
     else match (got.subs.zip want.subs).zipIdx.find? (fun ((g, w), _) => g ≠ w) with
       | some ((g, w), i) =>
         if g.recv ≠ w.recv then s!"sub {i} recv: model={w.recv.map (·.number)} impl={g.recv.map (·.number)}"
+        else if g.active ≠ w.active then s!"sub {i} active upkeeps: model={w.active} impl={g.active}"
         else if g.slow ≠ w.slow then
           s!"sub {i} stallable consumer: {g.slow.length} blocks, model {w.slow.length}; first difference at position {((g.slow.zip w.slow).takeWhile fun (a, b) => a == b).length}"
         else if g.hists ≠ w.hists then
@@ -170,6 +175,8 @@ def handle (input impl : Json) : R Reply := do
     (if native then ["native-delay"] else ["proxy-delay"]) ++
     (if crosses then ["crosses-power-of-ten"] else []) ++
     (if !stalls.isEmpty then ["consumer-stalls"] else []) ++
+    (if got.chain.any (fun b => !b.txs.isEmpty && !b.created.isEmpty) then ["transmits-and-upkeep-creation-in-one-block"] else []) ++
+    (if native && inp.detach.any (· != 0) then ["native-restart"] else []) ++
     (if stalls.any (fun (s, f, t) =>
         ((runTimed inp ch s).filter fun x => decide (f < x.1 * 1000) && decide (x.1 * 1000 < t)).length > 100)
       then ["consumer-lags-more-than-100-blocks"] else []) ++
